@@ -144,6 +144,17 @@ class Check:
         os.makedirs(os.path.join(OUT, 'evidence'), exist_ok=True)
         with open(os.path.join(OUT, 'evidence', self.prop + '.json'), 'w') as f:
             json.dump(ev, f, indent=1)
+        try:
+            self._print(lines, n_ob, n_ok, violations, seen_known, per_rule, wall)
+        except BrokenPipeError:
+            pass
+        if violations:
+            return 1
+        if self.broken:
+            return 2
+        return 0
+
+    def _print(self, lines, n_ob, n_ok, violations, seen_known, per_rule, wall):
         print('%s tier=%s obligations=%d discharged=%d violations=%d known=%d broken=%d wall=%.1fs' %
               (self.prop, self.tier, n_ob, n_ok, len(violations), len(seen_known), len(self.broken), wall))
         for rid in sorted(self.rules):
